@@ -32,6 +32,12 @@ const README_JSON: &str = r#"[
 ]"#;
 
 fn gen_string(d: &mut Dec) -> String {
+    if d.chance(3) {
+        // long strings (beyond 255 / 65 535 bytes)
+        let n = *d.pick(&[255usize, 256, 257, 1000, 65_536]);
+        let unit = *d.pick(&["a", "\\", "\"", "é", "\n"]);
+        return unit.repeat(n);
+    }
     const SPECIAL: &[char] = &[
         '"', '\\', '\n', '\r', '\t', '\0', '\u{1}', '\u{1f}', '\u{7f}', '/', '\u{8}', '\u{c}', '😀',
         '\u{10FFFF}', '\u{2028}', 'é', '{', '}', '[', ']', ':', ',', ' ', 'a', 'b',
@@ -90,10 +96,11 @@ impl Check for C16 {
     fn generate(&self, d: &mut Dec, thorough: bool) -> Case {
         if d.chance(150) {
             // raw strings
-            let nm = d.below(4);
+            let big = d.chance(8);
+            let nm = if big { *d.pick(&[17usize, 65, 130]) } else { d.below(4) };
             let mut modes = Vec::new();
             for _ in 0..nm {
-                let np = d.below(4);
+                let np = if big && d.chance(30) { *d.pick(&[65usize, 256, 300]) } else { d.below(4) };
                 let mut pats = Vec::new();
                 for _ in 0..np {
                     let la = match d.below(3) {
